@@ -205,7 +205,7 @@ class RatioTracker:
 
 
 def valid_async_history(rng, kind, tier, name, nops=None, cfg=None, allow_out_of_envelope=True,
-                        const_mask=None, ops_allowed=None, sig=None):
+                        const_mask=None, ops_allowed=None, sig=None, no_mask=False):
     c = cfg or async_cfg(rng, kind, tier)
     tr = RatioTracker(c)
     lines = ["T ty=%s" % c['ty'], new_line(c)]
@@ -217,7 +217,7 @@ def valid_async_history(rng, kind, tier, name, nops=None, cfg=None, allow_out_of
     if const_mask is not None:
         mask_mode = 'const'
         mask = const_mask
-    elif rng.chance(0.25):
+    elif rng.chance(0.25) and not no_mask:
         mask_mode = 'vary'
     allowed = ops_allowed or ['pib', 'pib', 'pib', 'pib', 'process', 'partial', 'partialinto', 'setratio', 'setrel', 'setchunk', 'reset']
     for i in range(n):
@@ -304,14 +304,14 @@ def valid_async_history(rng, kind, tier, name, nops=None, cfg=None, allow_out_of
     return Case(name, lines, meta)
 
 
-def valid_fft_history(rng, kind, tier, name, nops=None, cfg=None, const_mask=None, ops_allowed=None, sig=None):
+def valid_fft_history(rng, kind, tier, name, nops=None, cfg=None, const_mask=None, ops_allowed=None, sig=None, no_mask=False):
     c = cfg or fft_cfg(rng, kind, tier)
     lines = ["T ty=%s" % c['ty'], new_line(c)]
     nch = c['nch']
     n = nops or (4 + rng.below(8 if tier == 'quick' else 30))
     sigs = sig or sig_spec(rng)
     meta = {'cfg': c, 'ops': [], 'sig': sigs}
-    mask_mode = 'const' if const_mask is not None else ('vary' if rng.chance(0.2) else 'none')
+    mask_mode = 'const' if const_mask is not None else ('vary' if (rng.chance(0.2) and not no_mask) else 'none')
     allowed = ops_allowed or ['pib', 'pib', 'pib', 'pib', 'process', 'partial', 'partialinto', 'setratio', 'setrel', 'setchunk', 'reset']
     for i in range(n):
         kindop = rng.choice(allowed)
